@@ -5,6 +5,7 @@ From Coq Require Import List Bool String ZArith NArith.
 Import ListNotations.
 Require Pauli Span Tab Flow Adj AdjGen TableAdj GenProofs_RevMeas.
 Require Import Stab Spec SpecProofs GF2 Act Gen_GateTable Gen_RevTrack GenProofs_RevTrack.
+Require GenProofs_TabMeas.
 
 (* flows of a Clifford map are closed under products, signs included: products of generators are flows (any n) *)
 Theorem C14_flows_closed_under_product :
@@ -53,3 +54,9 @@ Theorem C14_revtrack_measure_reset_routines_match : GenProofs_RevMeas.revmeas_al
 Proof. exact GenProofs_RevMeas.revmeas_routines_match_adjgen. Qed.
 Print Assumptions C14_adjoint_all_gates. Print Assumptions C14_flows_closed_under_product. Print Assumptions C14_oracle_measurement_update.
 Print Assumptions C14_reverse_tracker_routines_match_inverse_table.
+
+(* The reverse tracker's MXX / MYY / MZZ segments, regenerated from source. *)
+Theorem C14_pair_measurement_segments_measure_the_product : GenProofs_TabMeas.seg_class_ok "tracker" = true.
+Proof. exact GenProofs_TabMeas.tracker_pair_segments_ok. Qed.
+Print Assumptions C14_pair_measurement_segments_measure_the_product.
+
